@@ -105,7 +105,13 @@ pub mod fm {
 
     pub broadcast group float_bits { ax_mul_req, ax_add_req, ax_sub_req, ax_div_req, ax_neg_req,
                                      ax_mul, ax_add, ax_sub, ax_div, ax_neg }
-    pub broadcast group float_order { ax_lt, ax_le, ax_gt, ax_ge }
+    pub broadcast axiom fn ax_pcmp(a: f64, b: f64, o: Option<core::cmp::Ordering>)
+        requires #[trigger] partial_cmp_ensures::<f64>(a, b, o)
+        ensures (nan(a) || nan(b)) <==> o is None,
+                o == Some(core::cmp::Ordering::Less) <==> flt(a, b),
+                o == Some(core::cmp::Ordering::Greater) <==> fgt(a, b),
+                o == Some(core::cmp::Ordering::Equal) <==> (!nan(a) && !nan(b) && ord(a) == ord(b));
+    pub broadcast group float_order { ax_lt, ax_le, ax_gt, ax_ge, ax_pcmp }
     pub broadcast group float_real { ax_fin_ord, ax_fmul_r, ax_fadd_r, ax_fsub_r, ax_fdiv_r, ax_fneg_r,
                                      ax_ffma_r, ax_frecip_r, ax_fmax_r, ax_fln_r, ax_fexp_r }
     }
